@@ -124,6 +124,36 @@ def C11(tier, seed):
                            "set-emissions settles at the old rate and needs one day of funding"}
 
 
+def matrix_jobs(prefix, tier, seed, auth, subst, maxsubst_q, maxsubst_t, shards_q=2, shards_t=4):
+    jobs = []
+    shards, ms = (shards_q, maxsubst_q) if tier == "quick" else (shards_t, maxsubst_t)
+    for s in range(shards):
+        jobs.append({"name": f"{prefix}{s}", "args": ["matrix", "--seed", str(seed * 100 + s), "--auth", auth, "--subst", subst, "--maxsubst", str(ms)]})
+    return jobs
+
+
+def C04(tier, seed):
+    drivers = matrix_jobs("auth_", tier, seed, "1", "0", 0, 0, shards_q=2, shards_t=8)
+    drivers += hist_jobs("hist_spl_", seed, 2 if tier == "quick" else 8, 4 if tier == "quick" else 40, 150, "spl", ["--rewards", "1"])
+    return {"active": ["C04"], "drivers": drivers, "models": [mc("MC_Whirlpool", tier), COV], "exhaustive": True,
+            "must_exercise": {"set_fee_rate": 1, "collect_protocol_fees": 1, "set_reward_emissions": 1, "close_position": 1, "lock_position": 1, "transfer_locked_position": 1,
+                              "set_fee_rate_by_delegated_fee_authority": 1, "delete_token_badge": 1, "reposition_liquidity_v2": 1, "delete_position_bundle": 1},
+            "explanation": "authority matrix: every privileged instruction of a prepared world (two configs, adaptive tiers with equal index, badges, bundles, locked positions) is probed, on copies "
+                           "of the bank, with the right key unsigned, other users / other authorities of either config signed, delegates with amount 0/1/2 and an emptied token account; "
+                           "TLC requires every successful instruction (probe or not) to satisfy the specification's Guard (authority recorded in the abstract state + signer flag), every base "
+                           "instruction to succeed and every failed one to leave the state untouched; toy instance: OwnerSigned action property"}
+
+
+def C15(tier, seed):
+    drivers = matrix_jobs("subst_", tier, seed, "0", "1", 10, 1000, shards_q=3, shards_t=4)
+    return {"active": ["C15"], "drivers": drivers, "models": [], "exhaustive": tier != "quick",
+            "must_exercise": {"swap": 1, "swap_v2": 1, "two_hop_swap": 1, "two_hop_swap_v2": 1, "collect_reward_v2": 1, "reposition_liquidity_v2": 1, "collect_protocol_fees_v2": 1},
+            "explanation": "substitution matrix: for every account slot of every fund-moving / privileged instruction of the prepared world, the account is replaced (one slot at a time, on a copy "
+                           "of the bank) by other accounts of the same kind (other pool's vault / tick array / position / oracle, other mint's token account, reward vault of another index, "
+                           "other token program, a non-program account); TLC requires every successful probe to satisfy the interface relations of module WpIface (harmless substitutions "
+                           "may succeed), failed probes to be atomic, and the unsubstituted instruction to succeed; thorough tier substitutes every candidate"}
+
+
 def C12(tier, seed):
     drivers = []
     for tk, rw in (("spl", "0"), ("t22", "1"), ("t22fee", "0")):
@@ -174,4 +204,4 @@ def C08(tier, seed):
     return p
 
 
-PLANS = {"C01": C01, "C02": C02, "C03": C03, "C05": C05, "C06": C06, "C07": C07, "C11": C11, "C12": C12, "C13": C13, "C08": C08, "C09": C09}
+PLANS = {"C01": C01, "C02": C02, "C03": C03, "C04": C04, "C15": C15, "C05": C05, "C06": C06, "C07": C07, "C11": C11, "C12": C12, "C13": C13, "C08": C08, "C09": C09}
